@@ -1,5 +1,6 @@
 """Program-space checks over spec/Shapes.tla: every enumerated trait definition is rendered, expanded by
 the real generator, compiled against /repo and executed / linted.  Used by C01, C02, C03, C13."""
+import re
 import json, os, subprocess, sys
 import lib
 from lib import workdir, run_tlc, cargo_build
@@ -132,7 +133,19 @@ def run_lint(c, tier):
         if e.get("canary"):
             continue
         # (1) rustc's verdict on vtable fields, wrapper fns and concrete instantiations
-        for d in hit.get(k, [])[:1]:
+        mine = hit.get(k, [])
+        if e.get("user_abi"):
+            # the user's own `extern "C"` declarations (and the forwarding impls that repeat them) are not generated
+            # signatures: only the concrete instantiations are judged by the lint, the wrappers structurally
+            mine = [d for d in mine if not d["where"].split(":")[0].endswith("d%d.rs" % k)]
+            for it in layouts.get("d%d" % k, []):
+                if it["kind"] == "fn" and it["name"].startswith("cglue_wrapped_"):
+                    tys = [a[1] for a in it["args"]] + [it["ret"]]
+                    raw = [t for t in tys if re.search(r"&\s*(mut\s*)?\[|&\s*(mut\s*)?str\b|\bOption\s*<|\bResult\s*<|\bimpl\b", re.sub(r"'\w+\s*", "", t))]
+                    if it["abi"] != "C" or raw:
+                        c.violation("generated wrapper %s of a method the user declared extern \"C\" has a signature that is not C-representable: %s" % (it["name"], raw or it["abi"]),
+                                    {"definition": e, "fn": it})
+        for d in mine[:1]:
             c.violation("rustc FFI lint rejects generated code of definition %s: %s [%s] %s" % (json.dumps(e["d"]), d["text"], d["where"], d["snippet"]),
                         {"definition": e, "diagnostic": d})
         tbl = layouts.get("d%d" % k, [])
